@@ -1,30 +1,34 @@
 #!/bin/bash
-# usage: seedeval.sh <seed-dir> <demo-pkg-dir> <demo-run-regex> <check-id>...
-# 1) confirms the seeded change in a scratch worktree (builds, demo fails with / passes without)
-# 2) applies it to /repo, runs the given checks (quick), reverts /repo
+# usage: seedeval.sh <seed-dir> <demo-pkg-dir> <demo-run-regex> <check-id>[:tier]...
+# 1) confirms the seeded change in a scratch worktree (builds, demo fails with / passes without, suite)
+# 2) runs the given checks against that worktree (VERIF_REPO) with its own copy of /verif's output
+#    dirs untouched: /repo itself is never modified.
 export GOFLAGS=-mod=mod GOPROXY=off
 sd=$1; pkg=$2; rx=$3; shift 3
 wt=/tmp/wt_eval_$$
 git -C /repo worktree add -q $wt HEAD || exit 2
 cd $wt
-git apply $sd/patch.diff || { echo "PATCH DOES NOT APPLY"; git -C /repo worktree remove --force $wt; exit 2; }
+git apply $sd/patch.diff || { echo "PATCH DOES NOT APPLY"; cd /; git -C /repo worktree remove --force $wt; exit 2; }
 go build ./... && echo "build: ok" || echo "build: FAILED"
+suite=$(go test -vet=off -count=1 ./... 2>&1 | grep "^FAIL\s" | grep -v internal/sandbox | head -5)
+echo "suite with change (FAIL lines, internal/sandbox excluded): ${suite:-none}"
 cp $sd/*_test.go $pkg/ 2>/dev/null
 with=$(go test -vet=off -count=1 -run "$rx" ./$pkg/ 2>&1 | tail -1)
 echo "demo with change   : $with"
-git checkout -q -- . 
+git stash -q
+cp $sd/*_test.go $pkg/ 2>/dev/null
 without=$(go test -vet=off -count=1 -run "$rx" ./$pkg/ 2>&1 | tail -1)
 echo "demo without change: $without"
-git apply $sd/patch.diff
-suite=$(go test -vet=off -count=1 ./... 2>&1 | grep "^FAIL\s" | grep -v internal/sandbox | head -5)
-echo "suite with change (non-ok lines, TestGenerateSpec excluded): ${suite:-none}"
-cd /; git -C /repo worktree remove --force $wt
-cd /verif
-git -C /repo apply $sd/patch.diff || exit 2
-for id in "$@"; do
-  out=$(timeout 1500 ./check $id quick 2>&1)
-  echo "check $id rc=$? :: $(echo "$out" | grep -c '^VIOLATION') violations :: $(echo "$out" | grep '^check' | tail -1)"
+rm -f $pkg/*demo*_test.go $pkg/demo_test.go
+git stash pop -q
+rm -f $pkg/*demo*_test.go $pkg/demo_test.go
+cd "${VERIF_DIR:-/verif}"
+for spec in "$@"; do
+  id=${spec%%:*}; tier=quick; [[ "$spec" == *:* ]] && tier=${spec##*:}
+  out=$(VERIF_REPO=$wt timeout 3000 ./check $id $tier 2>&1)
+  echo "check $id $tier rc=$? :: $(echo "$out" | grep -c '^VIOLATION') violations :: $(echo "$out" | grep '^check' | tail -1)"
   echo "$out" | grep '^VIOLATION\|^INCONCLUSIVE' | head -4 | cut -c1-220
 done
-git -C /repo checkout -- .
-git -C /repo status --short | head -3
+cd /; git -C /repo worktree remove --force $wt
+# the runs above rewrote evidence files from a mutated tree: restore the committed ones
+git -C "${VERIF_DIR:-/verif}" checkout -- evidence 2>/dev/null
